@@ -14,6 +14,7 @@ type ChanAttr struct {
 	Closer, Sender string
 	ExtClose       bool // may be closed by any thread; modelled as a monotone Bool
 	CloseOnly      bool // never sent on: a receive returns only once it is closed
+	Guard          string // lock class that must be held to close it (so its closedness is stable under that lock)
 }
 
 // chanField returns "<Struct>.<field>" if e selects a channel-typed struct field.
@@ -56,13 +57,13 @@ func (x *Exec) xclosedKey(field string) string {
 	return key
 }
 
-func (x *Exec) chanInit(st *State, r, capT Term) {
+func (x *Exec) chanInit(st *State, r, capT Term, elemKey string) {
 	ck := x.chKey("chClosed", sortBool)
 	x.setHeap(st, ck, tStore(x.getHeap(st, ck).(Term), r, tFalse))
 	pk := x.chKey("chCap", x.idxSort())
 	x.setHeap(st, pk, tStore(x.getHeap(st, pk).(Term), r, capT))
-	hk := x.chKey("chHist", sortUnint("Hist"))
 	x.declConst("hist.empty", sortUnint("Hist"))
+	hk := x.chKey("chHist:"+elemKey, sortUnint("Hist"))
 	x.setHeap(st, hk, tStore(x.getHeap(st, hk).(Term), r, Term{"hist.empty", sortUnint("Hist")}))
 }
 
@@ -87,6 +88,9 @@ func (x *Exec) closeChan(e ast.Expr, c Term, st *State, pos token.Pos) {
 	k, a := x.chanAttr(e)
 	if a != nil && a.Closer != "" {
 		x.assertSafety(st, "chan", "only the holder of token("+a.Closer+") closes "+k, x.getHeap(st, x.tokKey(a.Closer)).(Term), pos)
+	}
+	if a != nil && a.Guard != "" {
+		x.assertSafety(st, "chan", k+" is closed only while holding "+a.Guard, x.heldTerm(st, a.Guard), pos)
 	}
 	if a != nil && a.ExtClose {
 		x.interfere(st)
@@ -158,7 +162,8 @@ func (x *Exec) doSend(chE ast.Expr, c Term, v Value, st *State, pos token.Pos) {
 		x.assertSafety(st, "chan", "only the holder of token("+a.Sender+") sends on "+k, x.getHeap(st, x.tokKey(a.Sender)).(Term), pos)
 	}
 	x.assertSafety(st, "chan", "send on closed channel "+k, tNot(x.closedTerm(chE, c, st)), pos)
-	hk := x.chKey("chHist", sortUnint("Hist"))
+	ct := x.info.TypeOf(chE).Underlying().(*types.Chan)
+	hk := x.chKey("chHist:"+typeKey(ct.Elem()), sortUnint("Hist"))
 	h := x.getHeap(st, hk).(Term)
 	x.setHeap(st, hk, tStore(h, c, x.histSnoc(tSelect(h, c), v)))
 }
